@@ -248,9 +248,14 @@ open VpnCloud VpnCloud.Beacon VpnCloud.Codec VpnCloud.Base62 VpnCloud.Spec.C17 V
 
 /-!
   A copy of the model of `decode` / `peerlist_decode` / `decrypt_data` / `mask_with_keystream` in which every
-  Rust expression that can panic (slice, index, `expect`, `unwrap`, `assert!`, `u8` overflow) returns `none`
-  when its condition fails.  It is used only to STATE `decode_never_panics`: the instrumented copy never
-  returns `none` and agrees with the model.  `oc` = the build has overflow checks (debug / test profile).
+  Rust expression that can panic (slice, index, `expect`, `unwrap`, `assert!`) returns `none` when its
+  condition fails.  It is used only to STATE `decode_never_panics`: the instrumented copy never returns `none`
+  and agrees with the model.
+
+  The copy mirrors the CURRENT code.  Since /repo commit "fix: do not overflow the keystream block counter …"
+  the block counter of `mask_with_keystream` is advanced with `iter = iter.wrapping_add(1)`: that expression
+  cannot panic in any build profile, so the mask loop has no overflow panic site any more and the copy needs no
+  build-profile parameter.  The code as it was before the fix is kept in `namespace Old` below (regression).
 -/
 namespace Checked
 
@@ -264,20 +269,21 @@ def markerChk (env : BeaconEnv) (type : Nat) : Option (List Char) :=
   | none => none                                   -- panic inside `to_base62`
   | some s => if s.length < 5 then none else some (s.take 5)   -- `[0..5]`
 
-/-- `mask_with_keystream`: `mask[pos]`, and `iter += 1` on a `u8` (panics with overflow checks, wraps without) -/
-def maskFromChk (oc : Bool) (env : BeaconEnv) (type seed : Nat) : Bytes → Nat → Nat → Option Bytes
+/-- `mask_with_keystream`: the only panic site left is the index `mask[pos]`; `iter = iter.wrapping_add(1)` wraps
+    modulo 256 and cannot panic -/
+def maskFromChk (env : BeaconEnv) (type seed : Nat) : Bytes → Nat → Nat → Option Bytes
   | [], _, _ => some []
   | b :: rest, iter, pos =>
     match (env.ks type seed iter)[pos]? with
     | none => none                                 -- `mask[pos]`
     | some m =>
       if pos + 1 = 16 then
-        if oc && decide (iter + 1 ≥ 256) then none -- `iter += 1`
-        else (maskFromChk oc env type seed rest ((iter + 1) % 256) 0).map (fun r => (b ^^^ m) :: r)
-      else (maskFromChk oc env type seed rest iter (pos + 1)).map (fun r => (b ^^^ m) :: r)
+        -- `iter = iter.wrapping_add(1)`
+        (maskFromChk env type seed rest ((iter + 1) % 256) 0).map (fun r => (b ^^^ m) :: r)
+      else (maskFromChk env type seed rest iter (pos + 1)).map (fun r => (b ^^^ m) :: r)
 
 /-- `decrypt_data`: outer `none` = panic, inner `none` = `false` -/
-def decryptDataChk (oc : Bool) (env : BeaconEnv) (data : Bytes) : Option (Option Bytes) :=
+def decryptDataChk (env : BeaconEnv) (data : Bytes) : Option (Option Bytes) :=
   if data.isEmpty then some none else
   match data.getLast? with
   | none => none                                   -- `data.pop().unwrap()`
@@ -286,7 +292,7 @@ def decryptDataChk (oc : Bool) (env : BeaconEnv) (data : Bytes) : Option (Option
     | none => none                                 -- `get_keystream(TYPE_SEED, 0, 0)[0]`
     | some s0 =>
       let seed := last ^^^ s0
-      match maskFromChk oc env TYPE_DATA seed data.dropLast 0 0 with
+      match maskFromChk env TYPE_DATA seed data.dropLast 0 0 with
       | none => none
       | some body => some (if seed = env.h0 body then some body else none)
 
@@ -303,31 +309,34 @@ def readV6sChk : Nat → Bytes → Option (List SockAddr)
     if d.length < 18 then none                     -- `assert!(data.len() >= pos + 18)`, `&data[pos..pos + 18]`
     else (readV6sChk n (d.drop 18)).map (fun r => .v6 (d.take 16) ((d.getD 16 0) * 256 + d.getD 17 0) :: r)
 
+/-- the part of `peerlist_decode` behind `decrypt_data` (`d` = the decrypted data) -/
+def bodyParseChk (d : Bytes) (ttl : Option Nat) (now : Nat) : Option (List SockAddr) :=
+  if d.length < 2 then none else                   -- `&data[pos..=pos + 1]`, pos = 0
+  let thn := d.getD 0 0 * 256 + d.getD 1 0
+  if (match ttl with | some t => tooOld now thn t | none => false) then some [] else
+  if d.length < 3 then none else                   -- `data[pos]`, pos = 2; `data.len() - pos`, pos = 3
+  let v4count := d.getD 2 0
+  let rest := d.length - 3
+  -- `(data.len() - pos - v4count * 6)` is evaluated only if `v4count * 6 <= data.len() - pos`
+  if v4count * 6 > rest ∨ (rest - v4count * 6) % 18 > 0 then some [] else
+  match readV4sChk v4count (d.drop 3), readV6sChk ((rest - v4count * 6) / 18) (d.drop (3 + v4count * 6)) with
+  | some a, some b => some (a ++ b)
+  | _, _ => none
+
 /-- `peerlist_decode` -/
-def peerlistDecodeChk (oc : Bool) (env : BeaconEnv) (text : List Char) (ttl : Option Nat) (now : Nat) :
+def peerlistDecodeChk (env : BeaconEnv) (text : List Char) (ttl : Option Nat) (now : Nat) :
     Option (List SockAddr) :=
   match fromBase62 text with
   | .error _ => none                               -- `.expect("Invalid input")`
   | .ok data =>
     if data.length < 4 then some [] else
-    match decryptDataChk oc env data with
+    match decryptDataChk env data with
     | none => none
     | some none => some []
-    | some (some d) =>
-      if d.length < 2 then none else               -- `&data[pos..=pos + 1]`, pos = 0
-      let thn := d.getD 0 0 * 256 + d.getD 1 0
-      if (match ttl with | some t => tooOld now thn t | none => false) then some [] else
-      if d.length < 3 then none else               -- `data[pos]`, pos = 2; `data.len() - pos`, pos = 3
-      let v4count := d.getD 2 0
-      let rest := d.length - 3
-      -- `(data.len() - pos - v4count * 6)` is evaluated only if `v4count * 6 <= data.len() - pos`
-      if v4count * 6 > rest ∨ (rest - v4count * 6) % 18 > 0 then some [] else
-      match readV4sChk v4count (d.drop 3), readV6sChk ((rest - v4count * 6) / 18) (d.drop (3 + v4count * 6)) with
-      | some a, some b => some (a ++ b)
-      | _, _ => none
+    | some (some d) => bodyParseChk d ttl now
 
 /-- the `while` loop of `decode`; `none` also when the loop has not ended after `fuel` rounds -/
-def decodeLoopChk (oc : Bool) (env : BeaconEnv) (B E data : List Char) (ttl : Option Nat) (now : Nat) :
+def decodeLoopChk (env : BeaconEnv) (B E data : List Char) (ttl : Option Nat) (now : Nat) :
     Nat → Nat → Option (List SockAddr)
   | 0, _ => none
   | fuel + 1, pos =>
@@ -343,18 +352,70 @@ def decodeLoopChk (oc : Bool) (env : BeaconEnv) (B E data : List Char) (ttl : Op
         match slice data startPos (startPos + g) with      -- `&data[start_pos..end_pos]`
         | none => none
         | some cand =>
-          match peerlistDecodeChk oc env cand ttl now, decodeLoopChk oc env B E data ttl now fuel startPos with
+          match peerlistDecodeChk env cand ttl now, decodeLoopChk env B E data ttl now fuel startPos with
           | some a, some b => some (a ++ b)
           | _, _ => none
 
 /-- `decode` -/
-def decodeChk (oc : Bool) (env : BeaconEnv) (text : List Char) (ttl : Option Nat) (now : Nat) :
+def decodeChk (env : BeaconEnv) (text : List Char) (ttl : Option Nat) (now : Nat) :
     Option (List SockAddr) :=
   match markerChk env TYPE_BEGIN, markerChk env TYPE_END with
-  | some B, some E => decodeLoopChk oc env B E (sanitize text) ttl now ((sanitize text).length + 1) 0
+  | some B, some E => decodeLoopChk env B E (sanitize text) ttl now ((sanitize text).length + 1) 0
   | _, _ => none
 
 end Checked
+
+/-!
+  REGRESSION — the defect that was fixed in /repo commit "fix: do not overflow the keystream block counter …".
+  Before the fix `mask_with_keystream` declared `let mut iter = 0` (a `u8` by inference) and advanced it with
+  `iter += 1`: in a build with overflow checks (debug / test profile) this panics ("attempt to add with
+  overflow") when the 256th block ends, i.e. as soon as 4096 bytes have been masked.  The definitions below are
+  the instrumented copy of the OLD code in such a build; they are used only by the regression theorems
+  `old_counter_overflows` … `overflow_text_exists_old` of `Proofs/C17More.lean`, which keep the history of the
+  finding machine-checked.
+-/
+namespace Old
+open Checked
+
+/-- the OLD `mask_with_keystream` (before the fix) in a build with overflow checks: `iter += 1` on a `u8` -/
+def maskFromOld (env : BeaconEnv) (type seed : Nat) : Bytes → Nat → Nat → Option Bytes
+  | [], _, _ => some []
+  | b :: rest, iter, pos =>
+    match (env.ks type seed iter)[pos]? with
+    | none => none                                 -- `mask[pos]`
+    | some m =>
+      if pos + 1 = 16 then
+        if iter + 1 ≥ 256 then none                -- `iter += 1`: "attempt to add with overflow"
+        else (maskFromOld env type seed rest (iter + 1) 0).map (fun r => (b ^^^ m) :: r)
+      else (maskFromOld env type seed rest iter (pos + 1)).map (fun r => (b ^^^ m) :: r)
+
+/-- `decrypt_data` over the old mask loop -/
+def decryptDataOld (env : BeaconEnv) (data : Bytes) : Option (Option Bytes) :=
+  if data.isEmpty then some none else
+  match data.getLast? with
+  | none => none
+  | some last =>
+    match (env.ks TYPE_SEED 0 0)[0]? with
+    | none => none
+    | some s0 =>
+      let seed := last ^^^ s0
+      match maskFromOld env TYPE_DATA seed data.dropLast 0 0 with
+      | none => none
+      | some body => some (if seed = env.h0 body then some body else none)
+
+/-- `peerlist_decode` over the old mask loop -/
+def peerlistDecodeOld (env : BeaconEnv) (text : List Char) (ttl : Option Nat) (now : Nat) :
+    Option (List SockAddr) :=
+  match fromBase62 text with
+  | .error _ => none
+  | .ok data =>
+    if data.length < 4 then some [] else
+    match decryptDataOld env data with
+    | none => none
+    | some none => some []
+    | some (some d) => bodyParseChk d ttl now
+
+end Old
 
 /-- `begin()` and `end()` do not panic: the base-62 text of the two marker hashes has at least 5 characters
     (it has 86 unless the hash starts with zero bytes) -/
@@ -362,54 +423,48 @@ def MarkersOK (env : BeaconEnv) : Prop :=
   (∃ s, toBase62 (env.ks TYPE_BEGIN 0 0) = some s ∧ 5 ≤ s.length) ∧
   (∃ s, toBase62 (env.ks TYPE_END 0 0) = some s ∧ 5 ≤ s.length)
 
-/-- the third argument of the key stream is a `u8` in the code -/
-def KsU8 (env : BeaconEnv) : Prop := ∀ t s i, env.ks t s i = env.ks t s (i % 256)
-
-/-- masking `n` bytes does not panic and gives what the model says -/
-def MaskOK (oc : Bool) (env : BeaconEnv) (n : Nat) : Prop :=
-  ∀ t s d, d.length ≤ n → Checked.maskFromChk oc env t s d 0 0 = some (mask env d t s)
-
 end VpnCloud.Proofs.C17More
 
 namespace VpnCloud.Proofs.C17MoreLemmas
 open VpnCloud VpnCloud.Beacon VpnCloud.Codec VpnCloud.Base62 VpnCloud.Spec.C17 VpnCloud.Proofs.C17
 open VpnCloud.Proofs.BeaconLemmas VpnCloud.Proofs.Base62Lemmas
-open VpnCloud.Proofs.C17More VpnCloud.Proofs.C17More.Checked
+open VpnCloud.Proofs.C17More VpnCloud.Proofs.C17More.Checked VpnCloud.Proofs.C17More.Old
 
 theorem ks_idx (env : BeaconEnv) (h : EnvWF env) (t s i p : Nat) (hp : p < 64) :
     (env.ks t s i)[p]? = some ((env.ks t s i).getD p 0) := by
   have hl := (h.ks_wf t s i).2
   rw [List.getD_eq_getElem?_getD, List.getElem?_eq_getElem (by omega)]; rfl
 
-/-- release build: the `u8` counter wraps, the key stream is taken at `iter mod 256` -/
-theorem maskFromChk_wrap (env : BeaconEnv) (h : EnvWF env) (hu : KsU8 env) (t s : Nat) (d : Bytes) :
-    ∀ iter pos, pos < 16 → maskFromChk false env t s d (iter % 256) pos = some (maskFrom env t s d iter pos) := by
+/-- the mask loop never panics, for data of every length: the index `mask[pos]` stays below 16 and the block
+    counter wraps -/
+theorem maskFromChk_eq (env : BeaconEnv) (h : EnvWF env) (t s : Nat) (d : Bytes) :
+    ∀ iter pos, pos < 16 → maskFromChk env t s d iter pos = some (maskFrom env t s d iter pos) := by
   induction d with
   | nil => intro iter pos _; simp only [maskFromChk, maskFrom_nil]
   | cons b r ih =>
     intro iter pos hp
-    rw [maskFromChk, maskFrom_cons, ks_idx env h _ _ _ _ (by omega), ← hu t s iter]
-    simp only [Bool.false_and, Bool.false_eq_true, if_false]
+    rw [maskFromChk, maskFrom_cons, ks_idx env h _ _ _ _ (by omega)]
     by_cases h16 : pos + 1 = 16
     · simp only [h16, if_true]
-      rw [show (iter % 256 + 1) % 256 = (iter + 1) % 256 by omega, ih (iter + 1) 0 (by omega)]; rfl
+      rw [ih ((iter + 1) % 256) 0 (by omega)]; rfl
     · simp only [h16, if_false]
       rw [ih iter (pos + 1) (by omega)]; rfl
 
-/-- build with overflow checks: `iter += 1` panics exactly when the 4096th byte has been masked -/
-theorem maskFromChk_checked (env : BeaconEnv) (h : EnvWF env) (t s : Nat) (d : Bytes) :
+/-- REGRESSION (old code, build with overflow checks): `iter += 1` panics exactly when the 4096th byte has been
+    masked; below that the old loop computes what the model computes -/
+theorem maskFromOld_eq (env : BeaconEnv) (h : EnvWF env) (t s : Nat) (d : Bytes) :
     ∀ iter pos, pos < 16 → iter < 256 →
-      maskFromChk true env t s d iter pos =
+      maskFromOld env t s d iter pos =
         if 4096 ≤ 16 * iter + pos + d.length then none else some (maskFrom env t s d iter pos) := by
   induction d with
   | nil =>
     intro iter pos hp hi
-    simp only [maskFromChk, maskFrom_nil, List.length_nil]
+    simp only [maskFromOld, maskFrom_nil, List.length_nil]
     rw [if_neg (by omega)]
   | cons b r ih =>
     intro iter pos hp hi
-    rw [maskFromChk, maskFrom_cons, ks_idx env h _ _ _ _ (by omega)]
-    simp only [Bool.true_and, decide_eq_true_eq, List.length_cons]
+    rw [maskFromOld, maskFrom_cons, ks_idx env h _ _ _ _ (by omega)]
+    simp only [List.length_cons]
     by_cases h16 : pos + 1 = 16
     · simp only [h16, if_true]
       by_cases hov : iter + 1 ≥ 256
@@ -424,18 +479,8 @@ theorem maskFromChk_checked (env : BeaconEnv) (h : EnvWF env) (t s : Nat) (d : B
       · rw [if_pos hc, if_pos (by omega)]; rfl
       · rw [if_neg hc, if_neg (by omega)]; rfl
 
-theorem maskOK_release (env : BeaconEnv) (h : EnvWF env) (hu : KsU8 env) (n : Nat) : MaskOK false env n := by
-  intro t s d _
-  have := maskFromChk_wrap env h hu t s d 0 0 (by omega)
-  rw [Nat.zero_mod] at this
-  exact this
-
-theorem maskOK_checked (env : BeaconEnv) (h : EnvWF env) (n : Nat) (hn : n ≤ 4095) : MaskOK true env n := by
-  intro t s d hd
-  rw [maskFromChk_checked env h t s d 0 0 (by omega) (by omega), if_neg (by omega)]; rfl
-
-theorem decryptDataChk_eq (oc : Bool) (env : BeaconEnv) (h : EnvWF env) (data : Bytes)
-    (hm : MaskOK oc env (data.length - 1)) : decryptDataChk oc env data = some (decryptData env data) := by
+theorem decryptDataChk_eq (env : BeaconEnv) (h : EnvWF env) (data : Bytes) :
+    decryptDataChk env data = some (decryptData env data) := by
   unfold decryptDataChk decryptData
   cases hl : data.getLast? with
   | none =>
@@ -449,7 +494,8 @@ theorem decryptDataChk_eq (oc : Bool) (env : BeaconEnv) (h : EnvWF env) (data : 
     simp only [hne, Bool.false_eq_true, if_false]
     rw [ks_idx env h _ _ _ _ (by omega)]
     simp only []
-    rw [hm _ _ data.dropLast (by rw [List.length_dropLast]; omega)]
+    rw [maskFromChk_eq env h _ _ data.dropLast 0 0 (by omega)]
+    rfl
 
 theorem readV4sChk_eq : ∀ (n : Nat) (d : Bytes), n * 6 ≤ d.length → readV4sChk n d = some (readV4s n d)
   | 0, _, _ => rfl
@@ -507,19 +553,46 @@ theorem decryptData_length (env : BeaconEnv) (data d : Bytes) (h : decryptData e
       | cons _ _ => simp
     · cases h
 
-/-- `peerlist_decode` on sanitised text: no panic, and the result of the model -/
-theorem peerlistDecodeChk_eq (oc : Bool) (env : BeaconEnv) (h : EnvWF env) (text : List Char) (ttl : Option Nat)
-    (now : Nat) (hal : ∀ c ∈ text, c.isAlphanum = true) (hm : MaskOK oc env (text.length - 1)) :
-    peerlistDecodeChk oc env text ttl now = some (peerlistDecode env text ttl now) := by
+/-- the part of `peerlist_decode` behind `decrypt_data`: no panic on 3 bytes or more -/
+theorem bodyParseChk_eq (d : Bytes) (ttl : Option Nat) (now : Nat) (hd : 3 ≤ d.length) :
+    bodyParseChk d ttl now = some (bodyParse d ttl now) := by
+  unfold bodyParseChk bodyParse
+  rw [if_neg (by omega)]
+  have tail : (if d.length < 3 then none else
+      if d.getD 2 0 * 6 > d.length - 3 ∨ (d.length - 3 - d.getD 2 0 * 6) % 18 > 0 then some [] else
+      match readV4sChk (d.getD 2 0) (d.drop 3),
+        readV6sChk ((d.length - 3 - d.getD 2 0 * 6) / 18) (d.drop (3 + d.getD 2 0 * 6)) with
+      | some a, some b => some (a ++ b)
+      | _, _ => none) =
+      some (if d.getD 2 0 * 6 > d.length - 3 ∨ (d.length - 3 - d.getD 2 0 * 6) % 18 > 0 then [] else
+        readV4s (d.getD 2 0) (d.drop 3) ++
+          readV6s ((d.length - 3 - d.getD 2 0 * 6) / 18) (d.drop (3 + d.getD 2 0 * 6))) := by
+    rw [if_neg (by omega)]
+    by_cases hc : d.getD 2 0 * 6 > d.length - 3 ∨ (d.length - 3 - d.getD 2 0 * 6) % 18 > 0
+    · rw [if_pos hc, if_pos hc]
+    · rw [if_neg hc, if_neg hc, readV4sChk_eq _ _ (by rw [List.length_drop]; omega),
+        readV6sChk_eq _ _ (by rw [List.length_drop]; omega)]
+  cases ttl with
+  | none => simp only [Bool.false_eq_true, if_false]; exact tail
+  | some t =>
+    simp only []
+    by_cases hto : tooOld now (d.getD 0 0 * 256 + d.getD 1 0) t = true
+    · rw [if_pos hto, if_pos hto]
+    · rw [if_neg hto, if_neg hto]; exact tail
+
+/-- `peerlist_decode` on sanitised text of any length: no panic, and the result of the model -/
+theorem peerlistDecodeChk_eq (env : BeaconEnv) (h : EnvWF env) (text : List Char) (ttl : Option Nat)
+    (now : Nat) (hal : ∀ c ∈ text, c.isAlphanum = true) :
+    peerlistDecodeChk env text ttl now = some (peerlistDecode env text ttl now) := by
   obtain ⟨data, e, _, _, _⟩ := VpnCloud.Proofs.C18.fromBase62_spec text (fun c hc => charVal_isSome_of_alnum c (hal c hc))
-  have hlen := fromBase62_length text data e
-  unfold peerlistDecodeChk peerlistDecode
+  rw [peerlistDecode_eq]
+  unfold peerlistDecodeChk
   rw [e]
   simp only []
   by_cases h4 : data.length < 4
   · simp only [h4, if_true]
   · simp only [h4, if_false]
-    rw [decryptDataChk_eq oc env h data (fun t s d hd => hm t s d (by omega))]
+    rw [decryptDataChk_eq env h data]
     cases hd : decryptData env data with
     | none => rfl
     | some d =>
@@ -528,43 +601,19 @@ theorem peerlistDecodeChk_eq (oc : Bool) (env : BeaconEnv) (h : EnvWF env) (text
         rcases decryptData_length env data d hd with h1 | h1
         · exact h1
         · omega
-      rw [if_neg (by omega)]
-      have tail : (if d.length < 3 then none else
-          if d.getD 2 0 * 6 > d.length - 3 ∨ (d.length - 3 - d.getD 2 0 * 6) % 18 > 0 then some [] else
-          match readV4sChk (d.getD 2 0) (d.drop 3),
-            readV6sChk ((d.length - 3 - d.getD 2 0 * 6) / 18) (d.drop (3 + d.getD 2 0 * 6)) with
-          | some a, some b => some (a ++ b)
-          | _, _ => none) =
-          some (if d.getD 2 0 * 6 > d.length - 3 ∨ (d.length - 3 - d.getD 2 0 * 6) % 18 > 0 then [] else
-            readV4s (d.getD 2 0) (d.drop 3) ++
-              readV6s ((d.length - 3 - d.getD 2 0 * 6) / 18) (d.drop (3 + d.getD 2 0 * 6))) := by
-        rw [if_neg (by omega)]
-        by_cases hc : d.getD 2 0 * 6 > d.length - 3 ∨ (d.length - 3 - d.getD 2 0 * 6) % 18 > 0
-        · rw [if_pos hc, if_pos hc]
-        · rw [if_neg hc, if_neg hc, readV4sChk_eq _ _ (by rw [List.length_drop]; omega),
-            readV6sChk_eq _ _ (by rw [List.length_drop]; omega)]
-      cases ttl with
-      | none => simp only [Bool.false_eq_true, if_false]; exact tail
-      | some t =>
-        simp only []
-        by_cases hto : tooOld now (d.getD 0 0 * 256 + d.getD 1 0) t = true
-        · rw [if_pos hto, if_pos hto]
-        · rw [if_neg hto, if_neg hto]; exact tail
+      exact bodyParseChk_eq d ttl now (by omega)
 
 theorem slice_eq (l : List Char) (a g : Nat) (h : a + g ≤ l.length) :
     slice l a (a + g) = some ((l.drop a).take (a + g - a)) := by
   unfold slice; rw [if_pos ⟨by omega, h⟩]
 
-theorem maskOK_mono {oc : Bool} {env : BeaconEnv} {n m : Nat} (h : MaskOK oc env n) (hm : m ≤ n) : MaskOK oc env m :=
-  fun t s d hd => h t s d (by omega)
-
 /-- the loop of `decode` on sanitised text: no slice panics, the loop ends before the fuel does, every candidate
     is decoded without panic -/
-theorem decodeLoopChk_eq (oc : Bool) (env : BeaconEnv) (h : EnvWF env) (data : List Char) (ttl : Option Nat)
-    (now : Nat) (hal : ∀ c ∈ data, c.isAlphanum = true) (hm : MaskOK oc env (data.length - 1))
+theorem decodeLoopChk_eq (env : BeaconEnv) (h : EnvWF env) (data : List Char) (ttl : Option Nat)
+    (now : Nat) (hal : ∀ c ∈ data, c.isAlphanum = true)
     (hB : 1 ≤ (beginMarker env).length) :
     ∀ fuel pos, pos ≤ data.length → data.length + 1 ≤ fuel + pos →
-      decodeLoopChk oc env (beginMarker env) (endMarker env) data ttl now fuel pos =
+      decodeLoopChk env (beginMarker env) (endMarker env) data ttl now fuel pos =
         some (decodeLoop env data ttl now fuel pos) := by
   intro fuel
   induction fuel with
@@ -592,9 +641,7 @@ theorem decodeLoopChk_eq (oc : Bool) (env : BeaconEnv) (h : EnvWF env) (data : L
         have hcand : ∀ c ∈ (data.drop (pos + f + (beginMarker env).length)).take
             (pos + f + (beginMarker env).length + g - (pos + f + (beginMarker env).length)), c.isAlphanum = true :=
           fun c hc => hal c (List.mem_of_mem_drop (List.mem_of_mem_take hc))
-        rw [peerlistDecodeChk_eq oc env h _ ttl now hcand
-          (maskOK_mono hm (by rw [List.length_take, List.length_drop]; omega)),
-          ih _ (by omega) (by omega)]
+        rw [peerlistDecodeChk_eq env h _ ttl now hcand, ih _ (by omega) (by omega)]
 
 theorem markerChk_some (env : BeaconEnv) (t : Nat) (s : List Char) (h1 : toBase62 (env.ks t 0 0) = some s)
     (h2 : 5 ≤ s.length) : markerChk env t = some (marker env t) ∧ (marker env t).length = 5 := by
@@ -603,5 +650,77 @@ theorem markerChk_some (env : BeaconEnv) (t : Nat) (s : List Char) (h1 : toBase6
   simp only [Option.getD_some, List.length_take]
   rw [if_neg (by omega)]
   exact ⟨rfl, by omega⟩
+
+/-! ## when `begin()` / `end()` do not panic: at least 5 base-62 digits -/
+
+/-- the text of `to_base62` has 5 characters or more iff the bytes denote a number of at least `62^4` -/
+theorem toBase62_len5_iff (b : Bytes) (hb : Bytes.WF b) :
+    (∃ s, toBase62 b = some s ∧ 5 ≤ s.length) ↔ 14776336 ≤ Bytes.beVal b := by
+  obtain ⟨ds, e, c, v⟩ := VpnCloud.Proofs.C18.toBase62_spec b hb
+  rw [e, ← v]
+  constructor
+  · rintro ⟨s, hs, hl⟩
+    cases hs
+    simp only [List.length_map, List.length_reverse] at hl
+    match ds, c, hl with
+    | d0 :: d1 :: d2 :: d3 :: d4 :: rest, c, _ =>
+      have c4 : Canon 62 (d4 :: rest) := canon_tail (canon_tail (canon_tail (canon_tail c)))
+      have hne : leVal 62 (d4 :: rest) ≠ 0 := fun h0 => by
+        have := canon_val_zero 62 _ c4 h0; cases this
+      simp only [leVal_cons] at hne ⊢
+      omega
+  · intro hv
+    refine ⟨_, rfl, ?_⟩
+    simp only [List.length_map, List.length_reverse]
+    apply Nat.le_of_not_lt
+    intro hlt
+    have hd := c.1
+    match ds, hd, hv, hlt with
+    | [], _, hv, _ => simp only [leVal_nil] at hv; omega
+    | [a], hd, hv, _ =>
+      have := hd a (by simp)
+      simp only [leVal_cons, leVal_nil] at hv; omega
+    | [a, b'], hd, hv, _ =>
+      have := hd a (by simp); have := hd b' (by simp)
+      simp only [leVal_cons, leVal_nil] at hv; omega
+    | [a, b', c'], hd, hv, _ =>
+      have := hd a (by simp); have := hd b' (by simp); have := hd c' (by simp)
+      simp only [leVal_cons, leVal_nil] at hv; omega
+    | [a, b', c', d'], hd, hv, _ =>
+      have := hd a (by simp); have := hd b' (by simp); have := hd c' (by simp); have := hd d' (by simp)
+      simp only [leVal_cons, leVal_nil] at hv; omega
+    | _ :: _ :: _ :: _ :: _ :: _, _, _, hlt => simp only [List.length_cons] at hlt; omega
+
+/-- a non-zero byte at index `i` makes the big-endian value at least `256^(length - 1 - i)` -/
+theorem beVal_ge_of_nonzero (b : Bytes) : ∀ (i x : Nat), b[i]? = some x → x ≠ 0 →
+    256 ^ (b.length - 1 - i) ≤ Bytes.beVal b := by
+  induction b with
+  | nil => intro i x h; simp at h
+  | cons y r ih =>
+    intro i x h hx
+    cases i with
+    | zero =>
+      simp only [List.getElem?_cons_zero, Option.some.injEq] at h
+      subst h
+      simp only [Bytes.beVal, List.length_cons, Nat.add_sub_cancel, Nat.sub_zero]
+      have : 1 * 256 ^ r.length ≤ y * 256 ^ r.length := Nat.mul_le_mul_right _ (by omega)
+      omega
+    | succ j =>
+      simp only [List.getElem?_cons_succ] at h
+      have := ih j x h hx
+      simp only [Bytes.beVal, List.length_cons]
+      rw [show r.length + 1 - 1 - (j + 1) = r.length - 1 - j by omega]
+      omega
+
+/-- a 64-byte hash with a non-zero byte among its first 61 bytes has a base-62 text of 5 characters or more -/
+theorem len5_of_nonzero (b : Bytes) (hb : Bytes.WF b) (hl : b.length = 64) (i : Nat) (hi : i ≤ 60)
+    (hx : b.getD i 0 ≠ 0) : ∃ s, toBase62 b = some s ∧ 5 ≤ s.length := by
+  rw [toBase62_len5_iff b hb]
+  have hget : b[i]? = some (b.getD i 0) := by
+    rw [List.getD_eq_getElem?_getD, List.getElem?_eq_getElem (by omega)]; rfl
+  have h1 := beVal_ge_of_nonzero b i _ hget hx
+  have h2 : 256 ^ 3 ≤ 256 ^ (b.length - 1 - i) := Nat.pow_le_pow_right (by omega) (by omega)
+  have h3 : (256 : Nat) ^ 3 = 16777216 := by decide
+  omega
 
 end VpnCloud.Proofs.C17MoreLemmas
